@@ -33,6 +33,10 @@ type Hooks struct {
 	// EveryCall sees each call expression (including nested ones in
 	// expressions) once, before the statement containing it is applied.
 	EveryCall func(x *Exec, call *ast.CallExpr, s St) []St
+	// Observe sees every expression that is evaluated, with the state refined
+	// by short-circuit operators (the right operand of a && b is observed
+	// under a == true).
+	Observe func(x *Exec, e ast.Expr, s St)
 }
 
 type Base struct {
@@ -118,6 +122,15 @@ func (b *Base) Term(x *Exec, e ast.Expr, s St) (string, bool) {
 			return "", false
 		}
 		return "*" + bt, true
+	case *ast.BinaryExpr:
+		if e.Op == token.ADD || e.Op == token.SUB {
+			lt, ok1 := b.Term(x, e.X, s)
+			rt, ok2 := b.Term(x, e.Y, s)
+			if ok1 && ok2 && strings.HasPrefix(rt, "#") && !strings.HasPrefix(lt, "#") {
+				return lt + e.Op.String() + rt, true
+			}
+		}
+		return "", false
 	case *ast.IndexExpr:
 		bt, ok := b.Term(x, e.X, s)
 		it, ok2 := b.Term(x, e.Index, s)
@@ -143,6 +156,18 @@ func (b *Base) Term(x *Exec, e ast.Expr, s St) (string, bool) {
 	return "", false
 }
 
+// VTerm is Term for a value position: an integer local known to hold a
+// constant is replaced by that constant.
+func (b *Base) VTerm(x *Exec, e ast.Expr, s St) (string, bool) {
+	t, ok := b.Term(x, e, s)
+	if ok {
+		if cv := s.Get("c:" + t); cv != "" {
+			return "#" + cv, true
+		}
+	}
+	return t, ok
+}
+
 var posRe = regexp.MustCompile(`@(\d+)`)
 
 // mentionsRange reports whether str mentions an object declared in [lo,hi).
@@ -158,7 +183,8 @@ func mentionsRange(str string, lo, hi token.Pos) bool {
 
 func isTrackKey(k string) bool {
 	return strings.HasPrefix(k, "n:") || strings.HasPrefix(k, "b:") || strings.HasPrefix(k, "al:") ||
-		strings.HasPrefix(k, "p:") || strings.HasPrefix(k, "arg:") || strings.HasPrefix(k, "v:")
+		strings.HasPrefix(k, "p:") || strings.HasPrefix(k, "arg:") || strings.HasPrefix(k, "v:") ||
+		strings.HasPrefix(k, "c:") || strings.HasPrefix(k, "sub:") || strings.HasPrefix(k, "validated:")
 }
 
 // Invalidate forgets everything known about term t (and what depends on it).
@@ -274,6 +300,9 @@ func (b *Base) Bool(x *Exec, e ast.Expr, s St) string {
 func (b *Base) Branch(x *Exec, cond ast.Expr, truth bool, s St) []St {
 	if cond == nil {
 		return []St{s}
+	}
+	if truth {
+		b.observe(x, cond, s)
 	}
 	var out []St
 	for _, st := range b.everyCall(x, cond, s) {
@@ -466,8 +495,8 @@ func (b *Base) Refine(x *Exec, cond ast.Expr, truth bool, s St) []St {
 			}
 			return b.setAtom(s, "p:"+lt+"=="+rt, eq)
 		case token.LSS, token.LEQ, token.GTR, token.GEQ:
-			lt, ok1 := b.Term(x, c.X, s)
-			rt, ok2 := b.Term(x, c.Y, s)
+			lt, ok1 := b.VTerm(x, c.X, s)
+			rt, ok2 := b.VTerm(x, c.Y, s)
 			if !ok1 || !ok2 {
 				return []St{s}
 			}
@@ -480,6 +509,20 @@ func (b *Base) Refine(x *Exec, cond ast.Expr, truth bool, s St) []St {
 			case token.GEQ:
 				lt, rt = rt, lt
 				op = "<="
+			}
+			if strings.HasPrefix(lt, "#") && strings.HasPrefix(rt, "#") {
+				a, e1 := strconv.ParseInt(lt[1:], 10, 64)
+				bb, e2 := strconv.ParseInt(rt[1:], 10, 64)
+				if e1 == nil && e2 == nil {
+					v := a < bb
+					if op == "<=" {
+						v = a <= bb
+					}
+					if v == truth {
+						return []St{s}
+					}
+					return nil
+				}
 			}
 			if v, ok := relLookup(s, lt, op, rt); ok {
 				if v == truth {
@@ -606,6 +649,36 @@ func (b *Base) AssignValue(x *Exec, lhs ast.Expr, rhs ast.Expr, s St) St {
 			}
 		}
 	}
+	// integer local with a constant value: remember the constant
+	cv := ""
+	if rhs != nil {
+		if bt, ok := typ.Underlying().(*types.Basic); ok && bt.Info()&types.IsInteger != 0 {
+			if tv, ok := x.Fn.Info.Types[rhs]; ok && tv.Value != nil {
+				cv = tv.Value.ExactString()
+			}
+		}
+	}
+	// fields initialised by a composite literal (x := T{F: &U{}} / &T{F: ...})
+	fieldFacts := map[string]string{}
+	if rhs != nil {
+		r := ast.Unparen(rhs)
+		if u, ok := r.(*ast.UnaryExpr); ok && u.Op == token.AND {
+			r = ast.Unparen(u.X)
+		}
+		if cl, ok := r.(*ast.CompositeLit); ok {
+			if _, isStruct := x.Fn.Info.TypeOf(cl).Underlying().(*types.Struct); isStruct {
+				for _, el := range cl.Elts {
+					if kv, ok := el.(*ast.KeyValueExpr); ok {
+						if id, ok := kv.Key.(*ast.Ident); ok {
+							if v := b.Nil(x, kv.Value, s); v != "" {
+								fieldFacts[id.Name] = v
+							}
+						}
+					}
+				}
+			}
+		}
+	}
 	s = b.Invalidate(s, t)
 	if nv != "" {
 		s = s.Set("n:"+t, nv)
@@ -615,6 +688,12 @@ func (b *Base) AssignValue(x *Exec, lhs ast.Expr, rhs ast.Expr, s St) St {
 	}
 	if al != "" {
 		s = s.Set("al:"+t, al)
+	}
+	if cv != "" && !strings.Contains(t, ".") {
+		s = s.Set("c:"+t, cv)
+	}
+	for f, v := range fieldFacts {
+		s = s.Set("n:"+t+"."+f, v)
 	}
 	return s
 }
@@ -700,10 +779,105 @@ func (b *Base) everyCall(x *Exec, n ast.Node, s St) []St {
 	return states
 }
 
+// observe walks the expressions evaluated by n.
+func (b *Base) observe(x *Exec, n ast.Node, s St) {
+	if b.H.Observe == nil || n == nil {
+		return
+	}
+	switch e := n.(type) {
+	case *ast.FuncLit:
+		return
+	case *ast.BinaryExpr:
+		if e.Op == token.LAND || e.Op == token.LOR {
+			b.observe(x, e.X, s)
+			for _, s1 := range b.Refine(x, e.X, e.Op == token.LAND, s) {
+				b.observe(x, e.Y, s1)
+			}
+			return
+		}
+	case *ast.DeferStmt:
+		// arguments are evaluated now, the call later
+		for _, a := range e.Call.Args {
+			b.observe(x, a, s)
+		}
+		if _, ok := e.Call.Fun.(*ast.FuncLit); !ok {
+			b.observe(x, e.Call.Fun, s)
+		}
+		return
+	case *ast.GoStmt:
+		for _, a := range e.Call.Args {
+			b.observe(x, a, s)
+		}
+		return
+	case *ast.AssignStmt:
+		for _, r := range e.Rhs {
+			b.observe(x, r, s)
+		}
+		for _, l := range e.Lhs {
+			// the left side evaluates its operands (x.f = ..., a[i] = ...) but not itself
+			switch l := ast.Unparen(l).(type) {
+			case *ast.SelectorExpr:
+				b.observeLHS(x, l, s)
+			case *ast.IndexExpr:
+				b.observe(x, l, s)
+			case *ast.StarExpr:
+				b.observe(x, l.X, s)
+			}
+		}
+		return
+	case *ast.KeyValueExpr:
+		b.observe(x, e.Value, s)
+		return
+	}
+	if e, ok := n.(ast.Expr); ok {
+		b.H.Observe(x, e, s)
+	}
+	// children
+	var kids []ast.Node
+	first := true
+	ast.Inspect(n, func(m ast.Node) bool {
+		if first {
+			first = false
+			return true
+		}
+		if m != nil {
+			kids = append(kids, m)
+		}
+		return false
+	})
+	for _, k := range kids {
+		b.observe(x, k, s)
+	}
+}
+
+func (b *Base) observeLHS(x *Exec, sel *ast.SelectorExpr, s St) {
+	// assigning x.f dereferences x
+	b.H.Observe(x, sel, s)
+	b.observe(x, sel.X, s)
+}
+
 func (b *Base) Node(x *Exec, n ast.Node, s St) []St {
+	b.observe(x, n, s)
 	var out []St
 	for _, st := range b.everyCall(x, n, s) {
 		out = append(out, b.node1(x, n, st)...)
+	}
+	// variables whose address was passed to a call may have been written by it
+	if len(x.Fn.addrArgs) > 0 {
+		for _, c := range callsIn(n, false) {
+			if fullCalleeName(x.Fn.Info, c) == "builtin.append" {
+				continue
+			}
+			for _, a := range c.Args {
+				if u, ok := ast.Unparen(a).(*ast.UnaryExpr); ok && x.Fn.addrArgs[u] {
+					for i := range out {
+						if t, ok := b.Term(x, u.X, out[i]); ok {
+							out[i] = b.Invalidate(out[i], t)
+						}
+					}
+				}
+			}
+		}
 	}
 	return out
 }
@@ -761,6 +935,14 @@ func (b *Base) node1(x *Exec, n ast.Node, s St) []St {
 					return outs
 				}
 			}
+		}
+		if b.H.Assign != nil && len(n.Values) == len(n.Names) && len(n.Names) > 0 {
+			as := &ast.AssignStmt{Tok: token.DEFINE, TokPos: n.Pos()}
+			for i := range n.Names {
+				as.Lhs = append(as.Lhs, n.Names[i])
+				as.Rhs = append(as.Rhs, n.Values[i])
+			}
+			return b.H.Assign(x, as, st)
 		}
 		return []St{st}
 	case *ast.IncDecStmt:
@@ -821,6 +1003,9 @@ func resultTerms(fn *FlowFn) []string {
 }
 
 func (b *Base) Return(x *Exec, ret *ast.ReturnStmt, s St) []St {
+	if ret != nil {
+		b.observe(x, ret, s)
+	}
 	if ret != nil && b.H.EveryCall != nil {
 		var out []St
 		for _, st := range b.everyCall(x, ret, s) {
@@ -926,6 +1111,37 @@ func (b *Base) InlineCall(x *Exec, call *ast.CallExpr, fi *FuncInfo, lhs []ast.E
 		for i, t := range rts {
 			vals[i] = val{st.Get("n:" + t), st.Get("b:" + t)}
 		}
+		// facts about the fields of a returned local struct (return &h, nil)
+		// follow the value to the variable it is assigned to
+		adds := map[string]string{}
+		if e.Ret != nil && len(e.Ret.Results) == len(rts) && len(lhs) == len(rts) {
+			cx := &Exec{Fn: callee}
+			for i, re := range e.Ret.Results {
+				re = ast.Unparen(re)
+				if u, ok := re.(*ast.UnaryExpr); ok && u.Op == token.AND {
+					re = ast.Unparen(u.X)
+				}
+				if _, ok := re.(*ast.Ident); !ok {
+					continue
+				}
+				vt, ok := b.Term(cx, re, st)
+				if !ok || strings.HasPrefix(vt, "#") || vt == "nil" || !mentionsRange(vt, lo, hi) {
+					continue
+				}
+				lt, ok := b.Term(x, lhs[i], st)
+				if !ok {
+					continue
+				}
+				for k, v := range st.m {
+					if isTrackKey(k) && !strings.HasPrefix(k, "al:") && !strings.HasPrefix(k, "arg:") && strings.Contains(k, vt+".") {
+						nk := strings.ReplaceAll(k, vt+".", lt+".")
+						if !mentionsRange(nk, lo, hi) {
+							adds[nk] = v
+						}
+					}
+				}
+			}
+		}
 		// drop callee-scoped knowledge
 		st = st.Filter(func(k, v string) bool {
 			return isTrackKey(k) && (mentionsRange(k, lo, hi) || (strings.HasPrefix(k, "al:") && mentionsRange(v, lo, hi)))
@@ -951,6 +1167,9 @@ func (b *Base) InlineCall(x *Exec, call *ast.CallExpr, fi *FuncInfo, lhs []ast.E
 			for _, l := range lhs {
 				st = b.AssignValue(x, l, nil, st)
 			}
+		}
+		for k, v := range adds {
+			st = st.Set(k, v)
 		}
 		out = append(out, st)
 	}
